@@ -37,6 +37,12 @@ impl<TCompilationProfile: CompilationProfile> CompilerState<TCompilationProfile>
     }
 
     pub fn run_garbage_collection(&mut self) {
+        #[cfg(isographlabs_isograph_verif)]
+        if crate::verif_hooks::take_gc_due() {
+            self.db.run_garbage_collection();
+            self.last_gc_run = Instant::now();
+            return;
+        }
         if self.last_gc_run.elapsed() >= Duration::from_secs(GC_DURATION_SECONDS) {
             self.db.run_garbage_collection();
             self.last_gc_run = Instant::now();
